@@ -55,6 +55,9 @@ template<typename S, size_t D> static void boxes(std::mt19937 & rng, int count)
     S tol = std::is_same<S, float>::value ? S(1e-3) : S(1e-9);
     if ((rt.lower() - lo).norm() > tol || (rt.upper() - hi).norm() > tol) FAIL("AABB built from an interval does not reproduce it (lower %g vs %g)", (double)rt.lower()[0], (double)lo[0]);
     AxisAlignedBoundingBox<S, D> box(c, h);
+    // the centre and, for zero extents, points of the degenerate box (offset well inside the non-zero extent, so that rounding of the test point does not matter) are inside
+    if (!box.isInside(c)) FAIL("AABB<%s,%zu> centre (%g,%g) half (%g,%g) does not contain its own centre", std::is_same<S, float>::value ? "float" : "double", D, (double)c[0], (double)c[1], (double)h[0], (double)h[1]);
+    { V z = V::Zero(); z[0] = h[0]; AxisAlignedBoundingBox<S, D> flat(c, z); V p = c; p[0] = c[0] + h[0] / 2; if (!flat.isInside(p) || !flat.isInside(c)) FAIL("AABB with zero half-extents along all axes but the first (centre %g, half %g) does not contain the points of its own segment", (double)c[0], (double)h[0]); }
     M R = M::Identity();
     S ang = S(rng() % 6283) / 1000;
     R(0, 0) = std::cos(ang); R(0, 1) = -std::sin(ang); R(1, 0) = std::sin(ang); R(1, 1) = std::cos(ang);
